@@ -73,8 +73,10 @@ CHECKS = {
           "(invariant) and Termination (weak fairness) for every interleaving of each small configuration (object vs "
           "container vs buffer size in every order, early close with full pipeline, spurious wake-ups). Every edge of "
           "those graphs is then executed on the real File under the controlled scheduler (M1: thread status sets and "
-          "monitor state compared after each step), and real-scale sessions (128 KiB buffer, capacity 10, objects up to "
-          "4x(buffer+container)) run under seeded random schedules with exact deadlock/livelock verdicts."),
+          "monitor state compared after each step); medium-size sessions under seeded schedules are logged step by step "
+          "and validated by TLC against ReadSessionTrace/WriteSessionTrace (M2); real-scale sessions (128 KiB buffer, "
+          "capacity 10, objects up to 4x(buffer+container)) run under seeded random schedules with exact deadlock/"
+          "livelock verdicts. A strict mismatch is re-judged by weak trace validation (behaviour up to invisible steps)."),
     design_ref="DESIGN.md §6 C06, §3.2, §4",
     note=("Exhaustive only for the small configurations; real-scale runs are sampled schedules. Weak fairness assumed. "
           "Trusted: TLC, scheduler shim, projection of private members."),
